@@ -94,7 +94,38 @@ def run_case(case):
     return out
 
 
+ORIG_RUN_OPT = M.ScenarioRunnerNoTrade.run_optimizer_for_country
+
+
+def run_real(case):
+    """un-stubbed run: the real optimiser, wrapped only to record what it returned per country"""
+    import runutil
+    runutil.redirect_results()
+    rec = []
+
+    def wrapped(self, country_data, *a, **k):
+        out = ORIG_RUN_OPT(self, country_data, *a, **k)
+        rec.append([str(country_data["iso3"]), str(country_data["country"]), float(country_data["population"]), num(out[0])])
+        return out
+
+    M.ScenarioRunnerNoTrade.run_optimizer_for_country = wrapped
+    runner = M.ScenarioRunnerNoTrade()
+    try:
+        with quiet():
+            world, net_pop, net_fed, results = runner.run_model_no_trade(
+                title="verif_c15", create_pptx_with_all_countries=False, show_country_figures=False,
+                show_map_figures=False, add_map_slide_to_pptx=False, scenario_option=dict(case["scenario_option"]),
+                countries_list=list(case["list"]), return_results=True, save_all_results=False)
+    except BaseException as e:
+        runutil.cleanup_cwd()
+        return {"err": classify(e), "msg": str(e)[:300], "rec": rec}
+    runutil.cleanup_cwd()
+    return {"net_pop": num(net_pop), "net_fed": num(net_fed), "keys": list(results.keys()), "rec": rec,
+            "percent_people_fed": {k: num(v.percent_people_fed) for k, v in results.items()}}
+
+
 def run(payload):
+    real = [run_real(c) for c in payload.get("real", [])]
     M.pd = Proxy(pd, read_csv=read_csv)
     M.gpd = Proxy(REAL_GPD, read_file=read_file)
     M.ScenarioRunnerNoTrade.run_optimizer_for_country = stub
@@ -102,7 +133,7 @@ def run(payload):
     # the population column as the implementation reads it (for the audit)
     t = REAL_READ_CSV(M.Path(M.repo_root) / "data" / "no_food_trade" / "computer_readable_combined.csv")
     table = [[r.iso3, r.country, float(r.population)] for r in t.itertuples()]
-    return {"results": res, "table": table, "world_codes": sorted(set(STATE["world"]["iso_a3"])) if STATE["world"] is not None else []}
+    return {"results": res, "real": real, "table": table, "world_codes": sorted(set(STATE["world"]["iso_a3"])) if STATE["world"] is not None else []}
 
 
 if __name__ == "__main__":
